@@ -116,7 +116,13 @@ def generate(tape, tier="quick"):
     if tape.chance(1, 4):
         from ..grids import gen_structured
         src["grid"] = gen_structured(tape, max_dim=2, max_len=3)
-    return {"engine": "E3", "src": src, "consumers": cons, "events": events, "kind": kind}
+    if tape.chance(1, 4):
+        # storage pressure: the adapters' buffers (and the source's history) partly or completely in spill files
+        for c in cons:
+            c["mem_limit"] = tape.choice([0, 0, 10, 60, 200])
+        if tape.chance(1, 2):
+            src["mem_limit"] = tape.choice([0, 10, 60])
+    return {"engine": "E3", "src": src, "consumers": cons, "events": events, "kind": kind, "api": tape.draw(16)}
 
 
 def execute(sc):
